@@ -168,5 +168,6 @@ theorem json_add_member_attaches_last : type_of% @Cjet.Props.CjsonTree.add_membe
 theorem json_add_member_conserves_blocks : type_of% @Cjet.Props.CjsonTree.add_member_conserves_blocks := @Cjet.Props.CjsonTree.add_member_conserves_blocks
 
 theorem json_replace_checked_failure_changes_nothing : type_of% @Cjet.Props.CjsonTree.replace_checked_failure_changes_nothing := @Cjet.Props.CjsonTree.replace_checked_failure_changes_nothing
+theorem json_create_string_ledger : type_of% @Cjet.Props.CjsonTree.create_string_ledger := @Cjet.Props.CjsonTree.create_string_ledger
 
 end Cjet.Props.C15
